@@ -70,25 +70,28 @@ func factsC20() {
 	add("C20", "fallbackCounterAtomic", "Bool", at,
 		"pkg/id/fallback.go (*fallbackGenerator).New: the counter is advanced by atomic.AddUint64")
 
-	// 4. Fallback prefix: taken from the clock at creation?
-	pf := ""
+	// 4. Fallback prefix: taken from the clock at creation? 5. Does it also carry a per-program serial number
+	//    (a package-level counter advanced by an atomic add inside the prefix expression)?
+	pf, ps := "", ""
 	if fd := funcDecl(ff, "", "NewFallbackGenerator"); fd != nil && fd.Body != nil {
-		found := false
 		ast.Inspect(fd.Body, func(x ast.Node) bool {
 			kv, ok := x.(*ast.KeyValueExpr)
 			if !ok {
 				return true
 			}
 			if id, isId := kv.Key.(*ast.Ident); isId && id.Name == "prefix" {
-				found = true
 				pf = boolLit(hasCall(kv.Value, "UnixNano"))
+				serial := false
+				for _, fn := range []string{"atomic.AddUint64", "atomic.AddUint32", "atomic.AddInt64", "atomic.AddInt32"} {
+					serial = serial || hasCall(kv.Value, fn)
+				}
+				ps = boolLit(serial)
 			}
 			return true
 		})
-		if !found {
-			pf = ""
-		}
 	}
 	add("C20", "fallbackPrefixFromClock", "Bool", pf,
 		"pkg/id/fallback.go NewFallbackGenerator: prefix is derived from time.Now().UnixNano()")
+	add("C20", "fallbackPrefixSerial", "Bool", ps,
+		"pkg/id/fallback.go NewFallbackGenerator: the prefix expression also contains an atomic add on a counter of generators")
 }
